@@ -55,6 +55,23 @@ def selftest_obligations(prop: str, rep: Report, root: str) -> None:
         rep.undecided("SELFTEST", "variants", "-", "every variant is stale on this tree")
 
 
+def engine_obligations(rep: Report) -> None:
+    """Unit tests of the analyser's building blocks (term algebra, guards, canonical forms)."""
+    import contextlib
+    import io
+    from .selftest import engine
+
+    rep.rule("ENGINE", "unit tests of the term algebra, the guard logic and the canonical forms (sa/selftest/engine.py) pass", 1)
+    buf = io.StringIO()
+    with contextlib.redirect_stdout(buf):
+        rc = engine.main()
+    fails = [ln for ln in buf.getvalue().splitlines() if "FAIL" in ln]
+    if rc == 0:
+        rep.ok("ENGINE", "engine unit tests", "-", buf.getvalue().strip().splitlines()[-1] if buf.getvalue().strip() else "")
+    else:
+        rep.undecided("ENGINE", "engine unit tests", "-", f"the analyser's own unit tests fail: {fails[:5]}")
+
+
 def fuzz_obligations(prop: str, rep: Report, root: str) -> None:
     """False-alarm fuzzing of this property's checker on the current tree (sa/selftest/havoc.py, rewrite.py):
     one scratch copy per site, each differing from the tree by ONE behaviour-preserving edit.  A VIOLATION on any
